@@ -39,8 +39,6 @@ type verifPubWorld struct {
 	msg       *ClientComMessage
 }
 
-const verifStranger types.Uid = 99
-const verifRootUid types.Uid = 77
 
 func verifPubSetup(cfg verifPubCfg) *verifPubWorld {
 	w := &verifPubWorld{cfg: cfg}
